@@ -143,7 +143,15 @@ def _open_post(ctx):
     doc, kind, keep, dup, raw, rm = ctx.pre
     ok, msg = judge_open(doc, keep, dup, ctx.result, ctx.exc)
     REC.outcome("open", ctx.exc)
-    data_kw = tggen.data_splits_reader({"tiers": [{"t": "I" if t["class"] == "IntervalTier" else "P", "name": t["name"], "entries": t["entries"]} for t in doc["tiers"]]})
+    layout = None
+    if kind[0] == "text":
+        try:
+            import re as _re
+
+            layout = "long" if _re.search(r"(?m)^\s*tiers\?\s*<exists>", decode_bytes(raw)[0]) else "short"
+        except Exception:
+            layout = None
+    data_kw = tggen.data_splits_reader({"tiers": [{"t": "I" if t["class"] == "IntervalTier" else "P", "name": t["name"], "entries": t["entries"]} for t in doc["tiers"]]}, layout)
     classes = list(_current["classes"] or [])
     names = [t["name"] for t in doc["tiers"]]
     if len(set(names)) != len(names):
